@@ -4,6 +4,16 @@ import json, os, subprocess
 HERE = os.path.dirname(os.path.dirname(os.path.abspath(__file__)))
 
 CHECKS = {
+ 'C03': dict(
+    category='exploration', design_ref='4/C03, 3.7',
+    technique='differential runtime oracle against lazy reference generators; exhaustive enumeration of short well-formed operator sequences; instrumented source counting pulls',
+    text='Every well-formed operator sequence of length <=2 (quick) / <=3 (thorough) over 35 parameter-instantiated operators x 5 input classes is executed on the real Stream (iteration / collect / drain, each under the hang watchdog) and compared with an independent sequential reference: values, order, terminal condition (exhaustion vs exception type+args at the same position); plus seeded programs up to length 7 and one-to-one chains on an unbounded instrumented source (0 pulls at construction; pulls <= k + sum of look-ahead).',
+    note='Trusted: the reference generators (vlib/refstream.py); groupby groups are materialised right after groupby; shuffle compared as a multiset.'),
+ 'C10': dict(
+    category='exploration', design_ref='4/C10, 3.2',
+    technique='schedule fuzzer on every statement of Fork.__next__ with targeted sites + boundary oracle per fork + pull/receive counters under one lock + window occupancy probe + bounded-progress watchdog',
+    text='tee with 2-4 forks consumed in threads at seeded relative speeds, window 2-5, source lengths 0..3*window, the source raising at every position, ~1000 (quick) fuzzed runs. Each fork must get exactly the source elements and end the way the source ended; the source is pulled once per element; pulled - min(received) <= window+2 (attained, never exceeded); no fork thread may be left blocked with stable stacks.',
+    note='Trusted: look-ahead verdict uses received_i + in_call_i (sound under counting lag, one unit less sensitive than the strict count, which is reported); the window-occupancy probe reads Fork.buffer and is skipped if absent.'),
  'C01': dict(
     category='exploration', design_ref='4/C01, 3.2, 3.3',
     technique='completion-order controller (DFS over all feasible orders for small n, seeded policies for large n) + schedule fuzzer; boundary oracle on unique tokens + call ledger; SingleLane shadow deque',
